@@ -101,6 +101,20 @@ def run(ctx, n_random=None):
                     check(mk(("chain", ("select", simple_select(0)), [(op, ("select", top_select(1)))]), "none"), "top")
                     check(mk(("chain", ("paren", mk(("chain", ("select", top_select(0)), []), "none")), [(op, ("select", top_select(1)))]), "none"), "top")
 
+    # ---- a single parenthesised query with clauses of its own inside and / or behind the parentheses
+    for inner_tail in ("none", "order", "limit", "both"):
+        for outer_tail in ("none", "order", "limit", "both"):
+            for depth in (1, 2):
+                inner = mk(("chain", ("select", simple_select(0)), []), inner_tail)
+                inner = dict(inner, body=("select", simple_select(0)))
+                opd = ("paren", inner)
+                if depth == 2:
+                    opd = ("paren", mk(("chain", opd, []), "none"))
+                q = mk(("chain", opd, []), outer_tail)
+                check(q, "paren-tail")
+                if depth == 1:
+                    union_reqs.append(q)
+
     # ---- Tie B for to_union_call: the model folds the REAL trees of the operands
     if ctx.driver:
         reqs, metas = [], []
